@@ -329,6 +329,19 @@ def handle : List String → String
   | "hang" :: kind :: rest =>
     s!"SPEC key=hang-{kind} no progress on: {" ".intercalate rest}"
   | ["info", hex, srv, pbs, impl] => infoCmd hex srv pbs impl
+  | ["metarow", row, impl] =>
+    -- a meta row whose key is not a region name (`table,startkey,id…`: at least two commas): the
+    -- client either refuses the row or can live with the region it made of it
+    if impl = "panic" then s!"SPEC key=panic-metarow a meta row with the key {row} crashed the client (location cache)"
+    else
+      let commas := match fromHex row with
+        | some b => (b.filter (· == 44)).length
+        | none => 0
+      s!"OK tags=metarow,{impl},commas{min commas 3}"
+  | ["incr", n, impl] =>
+    if impl = "panic" then s!"SPEC key=panic-increment an Increment answer with a {n}-byte value crashed the caller"
+    else if n = "8" && impl ≠ "ok" then s!"SPEC key=increment-rejected-good-answer {impl}"
+    else s!"OK tags=incr,{impl},len{n}"
   | ["coalesce", ap, script, impl] => coalesceCmd ap script impl
   | "broken" :: rest => s!"BAD harness: {" ".intercalate rest}"
   | _ => "BAD command"
